@@ -431,6 +431,19 @@ impl CheckedAction {
                     &mut state,
                 )
                 .await?;
+                // A signer that is not (or no longer) an authorized relayer makes the whole
+                // transaction invalid rather than merely failing: validators refuse to construct
+                // such a transaction, so a proposer holding one in its mempool (checked before the
+                // relayer was removed) must drop it instead of including it as a failed one.
+                checked_action
+                    .run_mutable_checks(&state)
+                    .await
+                    .map_err(|source| {
+                        CheckedActionExecutionError::execution(
+                            checked_action.action().name(),
+                            source,
+                        )
+                    })?;
                 if let Err(source) = checked_action.execute(&mut state).await {
                     // Determine whether to report this as a fatal error (pre-Blackburn) or not.
                     let is_fatal = state
